@@ -18,7 +18,11 @@ from vf.common import case_hash
 class KernelObs:
     """One kernel call compared with the oracle."""
 
-    __slots__ = ("itype", "sid", "k", "entities", "perms", "err", "bound", "status", "maxR", "maxS", "info", "geom")
+    __slots__ = ("itype", "sid", "k", "entities", "perms", "err", "bound", "status", "maxR", "maxS", "info", "geom", "sensitivity", "conditioning_adjusted")
+
+    def __init__(self):
+        self.sensitivity = None
+        self.conditioning_adjusted = False
 
     def as_dict(self):
         return {s: getattr(self, s) for s in self.__slots__}
@@ -94,7 +98,7 @@ def run_form(
     sum_factorization=False,
     diagonal=False,
     only=None,
-    delta=0.0,
+    delta=None,
     orc=None,
     poison=None,
     wscale=1.0,
@@ -103,6 +107,8 @@ def run_form(
     """Call every kernel of `cform` and compare with the oracle.  Returns (observations,
     descriptor, oracle)."""
     ffi = comp.ffi
+    if delta is None:
+        delta = getattr(comp, "table_delta", 0.0)
     scalar = scalar or comp.scalar
     dt, rdt, _, _ = H.SCALARS[scalar]
     cmode = "complex" in scalar
@@ -176,6 +182,16 @@ def run_form(
                         # prefilled A: rounding of A0+T limits accuracy to eps*|A0|
                         Seff = S + (np.abs(A0).reshape(S.shape) * 1.0 if prefill else 0.0)
                         o.err, o.bound, o.status = H.compare(T, R, Seff, scalar, delta, ops=max(1, info["npts"]))
+                        if o.status == "bad" and o.err < 1e5 * H.EPS[scalar]:
+                            # near miss: measure the conditioning of this evaluation (how much the REFERENCE moves when the
+                            # inputs move by a few ulp: ill-shaped random cells amplify rounding through the inverse Jacobian);
+                            # a backward-stable kernel may legitimately differ by that much.  Errors >= 1e5 eps are never excused.
+                            sens = _sensitivity(orc, itype, sid, data, dt, rdt, ents, perms, R, Seff, scalar, rng)
+                            o.sensitivity = sens
+                            if sens is not None and o.err <= o.bound + 64 * sens:
+                                o.status = "ok"
+                                o.bound = o.bound + 64 * sens
+                                o.conditioning_adjusted = True
                         o.maxR = float(np.max(np.abs(R))) if R.size else 0.0
                         o.maxS = float(np.max(S)) if S.size else 0.0
                         o.info = info["rules"]
@@ -183,6 +199,32 @@ def run_form(
                             o.info = {"rules": info["rules"], "K": T.tolist() if T.size <= 64 else "large", "R": R.tolist() if R.size <= 64 else "large"}
                         obs.append(o)
     return obs, desc, orc
+
+
+def _sensitivity(orc, itype, sid, data, dt, rdt, ents, perms, R, Seff, scalar, rng, trials=2):
+    """max |R(inputs (1 + 4 eps u)) - R(inputs)| / max(S) over a few random sign patterns u (eps of the scalar type)."""
+    eps = H.EPS[scalar]
+    scale = float(np.max(Seff)) if Seff.size else 0.0
+    if scale <= 0:
+        return None
+    worst = 0.0
+    base = _cast_data(data, dt, rdt)
+    for _ in range(trials):
+        d2 = {"x": {}, "w": {}, "c": {}}
+        for s_, v in base["x"].items():
+            d2["x"][s_] = v * (1 + 4 * eps * rng.choice([-1.0, 1.0], size=np.shape(v)))
+        for cf, sv in base["w"].items():
+            d2["w"][cf] = {s_: v * (1 + 4 * eps * rng.choice([-1.0, 1.0], size=np.shape(v))) for s_, v in sv.items()}
+        for cc, v in base["c"].items():
+            d2["c"][cc] = v * (1 + 4 * eps * rng.choice([-1.0, 1.0], size=np.shape(v)))
+        try:
+            R2, _, _ = orc.tensor(itype, sid, d2, ents, perms)
+        except Exception:
+            return None
+        if not np.all(np.isfinite(R2)):
+            return None
+        worst = max(worst, float(np.max(np.abs(np.asarray(R2) - np.asarray(R)))) / scale)
+    return worst
 
 
 def _cast_data(data, dt, rdt):
